@@ -854,7 +854,16 @@ def gen_tree(rng: random.Random, profile: str) -> Dict[str, Any]:
     corp = small_snippets()
     n_files = rng.randint(2, 8)
     n_dirs = rng.randint(1, 3)
-    dirs = [""] + [f"vsp{d}_{rng.choice(['pkg', 'lib', 'sub'])}" for d in range(1, n_dirs)]
+    if rng.random() < 0.5:
+        dirs = [""] + [f"vsp{d}_{rng.choice(['pkg', 'lib', 'sub'])}" for d in range(1, n_dirs)]
+    else:
+        # folders that nest, with names that sort *between* the files of their parent
+        # ('vsm3_alpha.py' < 'vsm3x_pkg1/...' < 'vsm4_beta.py'): the sorted file list interleaves folders
+        dirs = [""]
+        for d in range(1, rng.randint(2, 4)):
+            parent = rng.choice(dirs)
+            nm = f"vsm{rng.randrange(0, n_files)}x_{rng.choice(['pkg', 'lib', 'sub'])}{d}"
+            dirs.append(f"{parent}/{nm}" if parent else nm)
     files: Dict[str, str] = {}
     mods: List[Tuple[str, str]] = []  # (import name, relpath)
     with_edges = profile in ("edges", "imports") or (profile == "base" and rng.random() < 0.5)
@@ -862,7 +871,7 @@ def gen_tree(rng: random.Random, profile: str) -> Dict[str, Any]:
         d = rng.choice(dirs)
         name = _mod_name(rng, k)
         rel = f"{d}/{name}.py" if d else f"{name}.py"
-        imp = f"{d}.{name}" if d else name
+        imp = f"{d.replace('/', '.')}.{name}" if d else name
         body_kind = rng.random()
         if body_kind < 0.55:
             text = rng.choice(corp)["source"]
